@@ -931,27 +931,30 @@ func (wk *zzG04Walker) acts() (acts []string) {
 // ran: if the observation starts the worker, the worker's step follows.
 func (wk *zzG04Walker) admissible(st, act string, ran bool) (adm [][2]string, via map[[2]string][]*zzG04Edge) {
 	via = map[[2]string][]*zzG04Edge{}
-	for _, x := range wk.adj[st] {
-		if x.act != act {
-			continue
-		}
+	starts := func(x *zzG04Edge) (ok bool) {
+		return ran && strings.HasSuffix(x.dst, "+w") && !strings.HasSuffix(st, "+w")
+	}
 
-		starts := strings.HasSuffix(x.dst, "+w") && !strings.HasSuffix(st, "+w")
-		if !ran || !starts {
+	for _, x := range wk.adj[st] {
+		if x.act == act && !starts(x) {
 			k := [2]string{x.out, x.dst}
 			adm = append(adm, k)
 			via[k] = []*zzG04Edge{x}
+		}
+	}
 
+	// The observation starts the worker and the worker runs.  Where that
+	// cannot be told from an observation that starts none (at the boundary
+	// instant a worker may find nothing to do), the simpler reading stands.
+	for _, x := range wk.adj[st] {
+		if x.act != act || !starts(x) {
 			continue
 		}
 
 		for _, y := range wk.adj[x.dst] {
-			if y.act == "worker" {
-				k := [2]string{x.out, y.dst}
-				if _, ok := via[k]; !ok {
-					adm = append(adm, k)
-				}
-
+			k := [2]string{x.out, y.dst}
+			if _, ok := via[k]; y.act == "worker" && !ok {
+				adm = append(adm, k)
 				via[k] = []*zzG04Edge{x, y}
 			}
 		}
@@ -967,6 +970,9 @@ func (wk *zzG04Walker) exec(act string, planned *zzG04Edge) (ok bool) {
 	out, detail, ran := wk.sys.do(act, seed)
 	obs := wk.sys.state()
 	wk.steps++
+	if zzGetenv("VERIF_G04_DEBUG") != "" && wk.steps%500 == 0 {
+		fmt.Fprintf(os.Stderr, "g04: steps=%d resets=%d bad=%d covered=%d cur=%s act=%s\n", wk.steps, wk.resets, wk.bad, wk.covered, wk.cur, act)
+	}
 
 	adm, via := wk.admissible(wk.cur, act, ran)
 	if edges, found := via[[2]string{out, obs}]; found {
@@ -1051,7 +1057,8 @@ const zzG04MaxBad = 400
 
 // tour covers every open edge once (greedy nearest-uncovered-edge walk).
 func (wk *zzG04Walker) tour() {
-	for wk.bad < zzG04MaxBad {
+	// The step bound is a safety net against a tour that does not converge.
+	for limit := wk.steps + 60*len(wk.all); wk.bad < zzG04MaxBad && wk.steps < limit; {
 		if len(wk.hist) >= wk.maxHist {
 			wk.restart()
 		}
